@@ -13,6 +13,7 @@ def sh(cmd, cwd=None, env=None, timeout=3600):
 
 def main():
     seed, prop, name = sys.argv[1:4]
+    seed = os.path.abspath(seed)
     props = [prop]
     if '--props' in sys.argv:
         props = sys.argv[sys.argv.index('--props') + 1].split(',')
@@ -24,7 +25,7 @@ def main():
     try:
         rc0, o0 = sh(f'/venv/bin/python -B {seed}/demo.py', cwd=wt, env=env)
         res['demo_on_head'] = rc0
-        rc, o = sh(f'git apply {seed}/patch.diff', cwd=wt)
+        rc, o = sh(f'git apply {seed}/patch.diff || git apply --3way {seed}/patch.diff', cwd=wt)
         if rc != 0:
             res['apply_error'] = o[-500:]
             print(json.dumps(res, indent=1)); return 2
@@ -38,7 +39,7 @@ def main():
     ok = res['demo_on_head'] == 0 and res['demo_with_patch'] != 0 and '241 passed' in res.get('tests_with_patch', '') and '14 failed' in res.get('tests_with_patch', '')
     res['confirmed'] = ok
     # run checks against /repo with the patch applied
-    rc, o = sh(f'git -C /repo apply {os.path.abspath(seed)}/patch.diff')
+    rc, o = sh(f'git -C /repo apply {os.path.abspath(seed)}/patch.diff || (git -C /repo apply --3way {os.path.abspath(seed)}/patch.diff && git -C /repo reset -q)')
     res['checks'] = {}
     try:
         if rc != 0:
@@ -54,7 +55,8 @@ def main():
     dst = f'/verif/seeded/{name}'
     os.makedirs(dst, exist_ok=True)
     for f in ('patch.diff', 'demo.py'):
-        shutil.copy(os.path.join(seed, f), dst)
+        if os.path.abspath(os.path.join(seed, f)) != os.path.abspath(os.path.join(dst, f)):
+            shutil.copy(os.path.join(seed, f), dst)
     meta = {}
     try:
         meta = json.load(open(os.path.join(seed, 'meta.json')))
